@@ -2,9 +2,12 @@ package props
 
 import (
 	"bytes"
+	"encoding/binary"
+	"errors"
 	"fmt"
+	"io"
 
-	carv2 "github.com/ipld/go-car/v2"
+	"github.com/multiformats/go-multihash"
 
 	"verif/drv"
 	"verif/kit"
@@ -12,31 +15,125 @@ import (
 )
 
 type C02Mut struct {
-	Kind string `json:"kind"` // flip, trunc
-	Pos  int    `json:"pos"`
-	Bit  int    `json:"bit,omitempty"`
+	Kind    string `json:"kind"` // flip, flipx, trunc, datasize
+	Pos     int    `json:"pos"`
+	Bit     int    `json:"bit,omitempty"`
+	ZeroEOF bool   `json:"zeroeof,omitempty"`
 }
 
 type C02Case struct {
 	Seq  []string `json:"seq"`
-	Cont string   `json:"cont"` // v1, v2, v2pad
+	Cont string   `json:"cont"` // v1, v2, v2pad, v2noidx
 	Mut  *C02Mut  `json:"mut,omitempty"`
+	// Part selects one family of executions for this archive ("" = sanity + every mutant family):
+	// sanity, flip, flipx, trunc, datasize, or one of the special modes large, batch, unknownhash.
+	Part string `json:"part,omitempty"`
+	// Roots names the header's root list: "" = one root (a); "abs" = three roots (a, b, s), which
+	// makes the CARv1 header longer than 127 bytes (two-byte header length varint).
+	Roots string `json:"roots,omitempty"`
+	// Lo/Hi restrict the mutated file offsets of the family to [Lo,Hi) when Hi > 0 (large
+	// sections are split into several cases so that they spread over the workers).
+	Lo int `json:"lo,omitempty"`
+	Hi int `json:"hi,omitempty"`
 }
 
-// c02Readers: verifying scanning readers; the bool says whether the reader hands out data.
+// verifying scanning readers; a kind is <reader>[-<source>], see drv.ReadC02. The first list of
+// each pair is the original set, the second adds the remaining source capability kinds.
 var c02V1Readers = []string{"br-bytes", "br-stream", "root-reader", "root-load", "root-load-batch", "int-reader", "int-load"}
+var c02V1ReadersX = []string{"br-file", "br-bufio", "br-dataerr", "br-onebyte", "root-reader-dataerr", "root-reader-onebyte", "int-reader-bytes", "int-reader-dataerr", "int-reader-onebyte", "int-load-batch"}
 var c02V2Readers = []string{"br-bytes", "br-stream"}
+var c02V2ReadersX = []string{"br-file", "br-bufio", "br-dataerr", "br-onebyte"}
 var c02SkipReaders = []string{"br-skip-bytes", "br-skip-stream"}
+var c02SkipReadersX = []string{"br-skip-file", "br-skip-bufio", "br-skip-dataerr", "br-skip-onebyte"}
+
+// c02UnknownHash: multihash codes that no hasher is registered for (private-use range, and an
+// unassigned one-byte code); checked against the registry at run time.
+var c02UnknownHash = map[string]uint64{"u": 0x300000, "u10": 0x10}
+
+func c02Block(name string) refcar.Block {
+	if code, ok := c02UnknownHash[name]; ok {
+		data := []byte("unverifiable " + name)
+		d := make([]byte, 32)
+		for i := range d {
+			d[i] = byte(0xa0 + i)
+		}
+		return refcar.Block{Cid: refcar.CIDv1(refcar.CodecRaw, code, d), Data: data}
+	}
+	return kit.B(name).Ref()
+}
+
+// c02Verify is refcar.VerifyBlock, except that a digest truncated to zero bytes (which a
+// single-bit flip of a digest-length byte 0x20 produces) is matched by any data: such a CID
+// claims nothing, so a reader that hands the block out does not contradict the property.
+func c02Verify(cidBytes, data []byte) (bool, error) {
+	ci, err := refcar.ParseCID(cidBytes)
+	if err != nil {
+		return false, err
+	}
+	if ci.MhCode != refcar.MhIdentity && len(ci.Digest) == 0 {
+		// the function only has to exist (refcar's own set, or registered with go-multihash as
+		// e.g. sha2-384 = 0x20 is): there is no digest byte to compare
+		if _, err := refcar.Digest(ci.MhCode, nil); err != nil {
+			if _, herr := multihash.GetHasher(ci.MhCode); herr != nil {
+				return false, err
+			}
+		}
+		return true, nil
+	}
+	return refcar.VerifyBlock(cidBytes, data)
+}
+
+func c02Roots(name string) [][]byte {
+	switch name {
+	case "":
+		_, raws, _ := kit.Roots("a")
+		return raws
+	case "abs":
+		return [][]byte{kit.B("a").Raw, kit.B("b").Raw, kit.B("s").Raw}
+	}
+	panic("unknown root list " + name)
+}
+
+func c02ErrClass(phase string, err error) string {
+	switch {
+	case err == io.EOF:
+		return phase + ":bare-EOF"
+	case err == io.ErrUnexpectedEOF:
+		return phase + ":UnexpectedEOF"
+	case errors.Is(err, io.EOF):
+		return phase + ":wraps-EOF"
+	case errors.Is(err, io.ErrUnexpectedEOF):
+		return phase + ":wraps-UnexpectedEOF"
+	}
+	return phase + ":other"
+}
+
+func takesZeroEOF(rk string) bool {
+	r, _ := drv.SplitScanKind(rk)
+	return r == "br" || r == "br-skip" || r == "int-reader"
+}
+
+func cat(ls ...[]string) []string {
+	var out []string
+	for _, l := range ls {
+		out = append(out, l...)
+	}
+	return out
+}
 
 func runC02(c any, x *kit.Ctx) {
 	cs := c.(C02Case)
-	_, rootRaws, _ := kit.Roots("a")
+	rootRaws := c02Roots(cs.Roots)
 	var rb []refcar.Block
-	for _, b := range kit.Bs(cs.Seq) {
-		rb = append(rb, b.Ref())
+	unknown := -1 // index of the first block whose hash function is unavailable
+	for i, n := range cs.Seq {
+		if _, ok := c02UnknownHash[n]; ok && unknown < 0 {
+			unknown = i
+		}
+		rb = append(rb, c02Block(n))
 	}
 	payload := refcar.EncodeV1(rootRaws, false, rb)
-	pl, err := refcar.DecodePayload(payload, false, true)
+	pl, err := refcar.DecodePayload(payload, false, unknown < 0)
 	if err != nil {
 		panic(err)
 	}
@@ -51,11 +148,41 @@ func runC02(c any, x *kit.Ctx) {
 	case "v2pad":
 		file = refcar.EncodeV2(payload, 3, 2, refcar.EncodeIndex(refcar.CodecIndexSorted, refcar.RecordsOf(pl, false)), false)
 		base = 54
+	case "v2noidx":
+		file = refcar.EncodeV2(payload, 0, 0, nil, false)
+		base = 51
+	default:
+		panic("unknown container " + cs.Cont)
 	}
 	payloadEnd := base + len(payload)
-	readers := c02V1Readers
+	readers, readersX := c02V1Readers, c02V1ReadersX
 	if cs.Cont != "v1" {
-		readers = c02V2Readers
+		readers, readersX = c02V2Readers, c02V2ReadersX
+	}
+	// Reader matrix. The original readers run on every mutant of every archive. The extra source
+	// capability kinds (X) and the two extra Inspect sources run on every mutant of the "wide"
+	// archives (at most one block, or the 300-block archive), and for the two-block archives on
+	// the cuts inside the block sections; three-block archives get the original readers only.
+	wide := len(cs.Seq) <= 1 || cs.Part == "large"
+	mid := len(cs.Seq) == 2
+	verifyingCore, scanningCore := readers, cat(readers, c02SkipReaders)
+	verifying := cat(readers, readersX)
+	scanning := cat(readers, readersX, c02SkipReaders, c02SkipReadersX)
+	inspectCore := drv.InspectSources[:1]
+	if cs.Part == "batch" {
+		verifying = []string{"root-load-batch", "int-load-batch", "root-load", "int-load", "root-reader", "int-reader", "br-stream", "br-bytes"}
+		verifyingCore = verifying
+		scanning = cat(verifying, c02SkipReaders)
+		scanningCore = scanning
+	}
+	// flips of header bytes (pragma, CARv2 header, padding, CARv1 header): on the empty archive and
+	// on three one-block archives
+	hdrFlips := len(cs.Seq) == 0 || (len(cs.Seq) == 1 && (cs.Seq[0] == "a" || cs.Seq[0] == "s" || cs.Seq[0] == "i"))
+	pick := func(w bool, all, core []string) []string {
+		if w {
+			return all
+		}
+		return core
 	}
 	// section boundaries (file offsets) at which a truncation is a clean end
 	boundary := map[int]bool{base + int(pl.HeaderLen): true}
@@ -71,52 +198,94 @@ func runC02(c any, x *kit.Ctx) {
 		}
 		return -1
 	}
+	// first byte of the digest of section i (file offset): flips from there to the end of the
+	// section change the digest or the data, and nothing else
+	digestStart := func(i int) int {
+		s := pl.Sections[i]
+		vn := refcar.UvarintSize(uint64(len(s.Cid) + len(s.Data)))
+		return base + int(s.Offset) + vn + (len(s.Cid) - len(s.Info.Digest))
+	}
+	// replay case of one mutant; Part is kept because it selects the reader matrix
+	mcase := func(mut C02Mut) C02Case {
+		return C02Case{Seq: cs.Seq, Cont: cs.Cont, Roots: cs.Roots, Part: cs.Part, Mut: &mut}
+	}
 
-	checkIntact := func(r *drv.ReadResult, rk string, mut C02Mut, limit int) {
+	checkIntact := func(r *drv.ReadResultC02, rk string, mut C02Mut, limit int) {
 		// (a) everything handed out hashes to its CID, and equals the original prefix
+		skip := drv.IsSkipKind(rk)
 		for i, b := range r.Blocks {
-			if b.Data == nil && (rk == "br-skip-bytes" || rk == "br-skip-stream") {
+			if skip {
+				if i < limit && !bytes.Equal(b.Cid, pl.Sections[i].Cid) {
+					x.FailCase(mcase(mut), "c02:wrong-cid-before-damage:"+rk+":"+mut.Kind, "reader %s: CID #%d differs from the original although the damage is later (mutation %+v)", rk, i, mut)
+					return
+				}
 				continue
 			}
-			ok, err := refcar.VerifyBlock(b.Cid, b.Data)
+			ok, err := c02Verify(b.Cid, b.Data)
 			if err != nil || !ok {
-				x.FailCase(C02Case{cs.Seq, cs.Cont, &mut}, "c02:corrupt-block-returned:"+rk+":"+mut.Kind, "reader %s returned block #%d whose bytes do not hash to its CID (%v) under mutation %+v", rk, i, err, mut)
+				x.FailCase(mcase(mut), "c02:corrupt-block-returned:"+rk+":"+mut.Kind, "reader %s returned block #%d whose bytes do not hash to its CID (%v) under mutation %+v", rk, i, err, mut)
 				return
 			}
 			if i < limit && (!bytes.Equal(b.Cid, pl.Sections[i].Cid) || !bytes.Equal(b.Data, pl.Sections[i].Data)) {
-				x.FailCase(C02Case{cs.Seq, cs.Cont, &mut}, "c02:wrong-block-before-damage:"+rk+":"+mut.Kind, "reader %s block #%d differs from the original although the damage is later (mutation %+v)", rk, i, mut)
+				x.FailCase(mcase(mut), "c02:wrong-block-before-damage:"+rk+":"+mut.Kind, "reader %s block #%d differs from the original although the damage is later (mutation %+v)", rk, i, mut)
 				return
 			}
 		}
 	}
 
+	// flip of a bit of a digest or data byte: must be reported, nothing from the damaged section on is returned
 	runFlip := func(pos, bit int) {
 		mut := C02Mut{Kind: "flip", Pos: pos, Bit: bit}
 		m := append([]byte{}, file...)
 		m[pos] ^= 1 << bit
 		si := sectionOf(pos)
-		for _, rk := range readers {
-			r := drv.Read(rk, x.Dir, m, drv.Opts{})
+		for _, rk := range pick(wide, verifying, verifyingCore) {
+			r := drv.ReadC02(rk, x.Dir, m, drv.Opts{}, 0)
 			x.Eval(1)
+			x.Count("exec_flip", 1)
 			x.Transition(len(r.Blocks) + 1)
 			checkIntact(r, rk, mut, si)
 			if r.OpenErr == nil && r.Err == nil {
-				x.FailCase(C02Case{cs.Seq, cs.Cont, &mut}, "c02:flip-undetected:"+rk, "reader %s completed cleanly over an archive with bit %d of byte %d flipped (section %d)", rk, bit, pos, si)
+				x.FailCase(mcase(mut), "c02:flip-undetected:"+rk, "reader %s completed cleanly over an archive with bit %d of byte %d flipped (section %d)", rk, bit, pos, si)
 			} else if len(r.Blocks) > si {
-				x.FailCase(C02Case{cs.Seq, cs.Cont, &mut}, "c02:flip-late:"+rk, "reader %s returned %d blocks but section %d is damaged", rk, len(r.Blocks), si)
+				x.FailCase(mcase(mut), "c02:flip-late:"+rk, "reader %s returned %d blocks but section %d is damaged", rk, len(r.Blocks), si)
 			}
 		}
-		rd, err := carv2.NewReader(bytes.NewReader(m))
-		x.Eval(1)
-		if err == nil {
-			if _, err := rd.Inspect(true); err == nil {
-				x.FailCase(C02Case{cs.Seq, cs.Cont, &mut}, "c02:flip-undetected:inspect", "Inspect(true) accepts an archive with bit %d of byte %d flipped (section %d)", bit, pos, si)
+		for _, ik := range pick(wide, drv.InspectSources, inspectCore) {
+			_, oerr, err := drv.InspectFull(ik, m, drv.Opts{})
+			x.Eval(1)
+			if oerr == nil && err == nil {
+				x.FailCase(mcase(mut), "c02:flip-undetected:"+ik, "Inspect(true) [%s] accepts an archive with bit %d of byte %d flipped (section %d)", ik, bit, pos, si)
 			}
 		}
 	}
-	runTrunc := func(L int) {
-		mut := C02Mut{Kind: "trunc", Pos: L}
-		m := file[:L]
+	// flip of a bit of any other byte (container header, padding, CARv1 header, section length,
+	// CID version/codec/hash code/digest length): only part (a) of the property applies
+	runFlipX := func(pos, bit int, zeroEOF bool) {
+		mut := C02Mut{Kind: "flipx", Pos: pos, Bit: bit, ZeroEOF: zeroEOF}
+		m := append([]byte{}, file...)
+		m[pos] ^= 1 << bit
+		si := sectionOf(pos)
+		if si < 0 {
+			si = 0 // a header flip: nothing is known to precede the damage
+		}
+		o := drv.Opts{ZeroEOF: zeroEOF}
+		for _, rk := range pick(wide, scanning, scanningCore) {
+			if zeroEOF && !takesZeroEOF(rk) {
+				continue
+			}
+			r := drv.ReadC02(rk, x.Dir, m, o, 0)
+			x.Eval(1)
+			x.Count("exec_flipx", 1)
+			x.Transition(len(r.Blocks) + 1)
+			checkIntact(r, rk, mut, si)
+		}
+		for _, ik := range pick(wide, drv.InspectSources, inspectCore) {
+			drv.InspectFull(ik, m, o) // no verdict is required; must not panic
+			x.Eval(1)
+		}
+	}
+	completeBefore := func(L int) int {
 		si := sectionOf(L)
 		if si < 0 {
 			si = 0
@@ -126,82 +295,346 @@ func runC02(c any, x *kit.Ctx) {
 				}
 			}
 		}
-		all := append(append([]string{}, readers...), c02SkipReaders...)
-		for _, rk := range all {
-			r := drv.Read(rk, x.Dir, m, drv.Opts{})
+		return si
+	}
+	inLenVarint := func(L int) bool { // the cut is inside or exactly at the end of a section's length varint
+		si := sectionOf(L)
+		if si < 0 {
+			return false
+		}
+		s := pl.Sections[si]
+		return L <= base+int(s.Offset)+refcar.UvarintSize(uint64(len(s.Cid)+len(s.Data)))
+	}
+	nearLenVarint := func(L int) bool { // the cut is inside / at the end of a section's length varint, or one byte later
+		return inLenVarint(L) || inLenVarint(L-1)
+	}
+	// the payload ends at file offset L (not a section boundary): by truncating the file
+	// (kind trunc) or, for a CARv2, by a header whose DataSize ends the payload there while the
+	// file, index included, is complete (kind datasize)
+	runCut := func(kind string, L int, zeroEOF bool) {
+		mut := C02Mut{Kind: kind, Pos: L, ZeroEOF: zeroEOF}
+		var m []byte
+		sigKind := "trunc"
+		if kind == "trunc" {
+			m = file[:L]
+		} else {
+			sigKind = "datasize"
+			m = append([]byte{}, file...)
+			binary.LittleEndian.PutUint64(m[11+24:], uint64(L-base))
+		}
+		si := completeBefore(L)
+		where := truncWhere(L, base, int(pl.HeaderLen))
+		o := drv.Opts{ZeroEOF: zeroEOF}
+		w := wide || (mid && L >= base+int(pl.HeaderLen))
+		for _, rk := range pick(w, scanning, scanningCore) {
+			if zeroEOF && !takesZeroEOF(rk) {
+				continue
+			}
+			r := drv.ReadC02(rk, x.Dir, m, o, 0)
 			x.Eval(1)
+			x.Count("exec_"+sigKind, 1)
 			x.Transition(len(r.Blocks) + 1)
 			checkIntact(r, rk, mut, len(pl.Sections))
 			if r.OpenErr == nil && r.Err == nil {
-				x.FailCase(C02Case{cs.Seq, cs.Cont, &mut}, "c02:trunc-clean-eof:"+rk+":"+truncWhere(L, base, int(pl.HeaderLen)), "reader %s reports a clean end for a prefix of %d bytes that does not end on a section boundary (%d blocks returned)", rk, L, len(r.Blocks))
+				x.FailCase(mcase(mut), "c02:"+sigKind+"-clean-eof:"+rk+":"+where, "reader %s reports a clean end for a payload of %d bytes that does not end on a section boundary (%d blocks returned; %s, zeroEOF=%v)", rk, L-base, len(r.Blocks), kind, zeroEOF)
 			} else if len(r.Blocks) > si {
-				x.FailCase(C02Case{cs.Seq, cs.Cont, &mut}, "c02:trunc-extra-blocks:"+rk, "reader %s returned %d blocks from a prefix holding %d complete sections", rk, len(r.Blocks), si)
+				x.FailCase(mcase(mut), "c02:"+sigKind+"-extra-blocks:"+rk, "reader %s returned %d blocks from a prefix holding %d complete sections (%s)", rk, len(r.Blocks), si, kind)
+			}
+			if r.OpenErr != nil {
+				x.Outcome(sigKind + "|" + where + "|" + c02ErrClass("open", r.OpenErr))
+			} else if r.Err != nil {
+				x.Outcome(sigKind + "|" + where + "|" + c02ErrClass("iter", r.Err))
 			}
 		}
-		rd, err := carv2.NewReader(bytes.NewReader(m))
-		x.Eval(1)
-		if err == nil {
-			if _, err := rd.Inspect(true); err == nil {
-				x.FailCase(C02Case{cs.Seq, cs.Cont, &mut}, "c02:trunc-clean-eof:inspect:"+truncWhere(L, base, int(pl.HeaderLen)), "Inspect(true) accepts a prefix of %d bytes that does not end on a section boundary", L)
+		for _, ik := range pick(w, drv.InspectSources, inspectCore) {
+			_, oerr, err := drv.InspectFull(ik, m, o)
+			x.Eval(1)
+			if oerr == nil && err == nil {
+				w := where
+				if ik == "inspect-eager" && inLenVarint(L) {
+					w += ":length-varint"
+				}
+				x.FailCase(mcase(mut), "c02:"+sigKind+"-clean-eof:"+ik+":"+w, "Inspect(true) [%s] accepts a payload of %d bytes that does not end on a section boundary (%s, zeroEOF=%v)", ik, L-base, kind, zeroEOF)
+			}
+		}
+	}
+	// isHashed: file offset p lies in the digest or the data of a section
+	isHashed := func(p int) bool {
+		si := sectionOf(p)
+		return si >= 0 && p >= digestStart(si)
+	}
+	runMut := func(m C02Mut) {
+		switch m.Kind {
+		case "flip":
+			runFlip(m.Pos, m.Bit)
+		case "flipx":
+			runFlipX(m.Pos, m.Bit, m.ZeroEOF)
+		case "trunc", "datasize":
+			runCut(m.Kind, m.Pos, m.ZeroEOF)
+		default:
+			panic("unknown mutation kind " + m.Kind)
+		}
+	}
+	if cs.Mut != nil {
+		runMut(*cs.Mut)
+		return
+	}
+
+	// ---- the archive as it is: every reader returns exactly the original blocks, judged AFTER
+	// the whole scan (so a reader that hands out views into a buffer it later reuses is caught),
+	// a further Next after the clean end returns nothing, Inspect(true) accepts
+	sanity := func() {
+		for _, rk := range scanning {
+			r := drv.ReadC02(rk, x.Dir, file, drv.Opts{}, 2)
+			x.Eval(1)
+			if r.OpenErr != nil || r.Err != nil || len(r.Blocks) != len(pl.Sections) {
+				x.Fail("c02:valid-rejected:"+rk, "reader %s fails on the unmutated archive: %v %v (%d of %d blocks)", rk, r.OpenErr, r.Err, len(r.Blocks), len(pl.Sections))
+				continue
+			}
+			for i, b := range r.Blocks {
+				if drv.IsSkipKind(rk) {
+					if !bytes.Equal(b.Cid, pl.Sections[i].Cid) {
+						x.Fail("c02:valid-wrong-block:"+rk, "reader %s: CID #%d of a VALID archive is not the one in the archive", rk, i)
+						break
+					}
+					continue
+				}
+				if ok, err := refcar.VerifyBlock(b.Cid, b.Data); err != nil || !ok {
+					x.Fail("c02:block-corrupt-after-scan:"+rk, "reader %s: block #%d of a VALID archive no longer hashes to its CID once the scan has finished (retained data overwritten?)", rk, i)
+					break
+				}
+				if !bytes.Equal(b.Cid, pl.Sections[i].Cid) || !bytes.Equal(b.Data, pl.Sections[i].Data) {
+					x.Fail("c02:valid-wrong-block:"+rk, "reader %s: block #%d of a VALID archive is not block #%d of the archive (duplicated / reordered / lost block)", rk, i, i)
+					break
+				}
+			}
+			if len(r.PostBlocks) > 0 {
+				x.Fail("c02:block-after-eof:"+rk, "reader %s handed out %d block(s) when called again after its clean end of archive", rk, len(r.PostBlocks))
+			}
+			for _, e := range r.PostErrs {
+				x.Outcome("after-eof|" + c02ErrClass("next", e))
+			}
+		}
+		for _, ik := range drv.InspectSources {
+			n, oerr, err := drv.InspectFull(ik, file, drv.Opts{})
+			x.Eval(1)
+			if oerr != nil || err != nil || n != uint64(len(pl.Sections)) {
+				x.Fail("c02:valid-rejected:"+ik, "Inspect(true) [%s] fails on the unmutated archive: %v %v (%d of %d blocks)", ik, oerr, err, n, len(pl.Sections))
+			}
+		}
+		if cs.Cont == "v1" {
+			// two root-module readers with overlapping lifetimes (their buffered readers are pooled)
+			ri := drv.RootInterleave(file, file)
+			x.Eval(2)
+			if len(ri.APost) > 0 {
+				x.Fail("c02:block-after-eof:root-reader:interleaved", "root CarReader A handed out %d block(s) after its clean end while a second reader was open", len(ri.APost))
+			}
+			bad := ri.A.OpenErr != nil || ri.B.OpenErr != nil || ri.A.Err != nil || ri.B.Err != nil || len(ri.B.Blocks) != len(pl.Sections) || len(ri.A.Blocks) != len(pl.Sections)
+			if !bad {
+				for i, b := range ri.B.Blocks {
+					if !bytes.Equal(b.Cid, pl.Sections[i].Cid) || !bytes.Equal(b.Data, pl.Sections[i].Data) {
+						bad = true
+					}
+				}
+			}
+			if bad {
+				x.Fail("c02:valid-rejected:root-reader:interleaved", "root CarReader B, opened after reader A reached its end and scanned after two further A.Next calls, does not return the archive: A %v %v %d blocks, B %v %v %d blocks of %d", ri.A.OpenErr, ri.A.Err, len(ri.A.Blocks), ri.B.OpenErr, ri.B.Err, len(ri.B.Blocks), len(pl.Sections))
 			}
 		}
 	}
 
-	if cs.Mut != nil {
-		if cs.Mut.Kind == "flip" {
-			runFlip(cs.Mut.Pos, cs.Mut.Bit)
-		} else {
-			runTrunc(cs.Mut.Pos)
+	inRange := func(p int) bool { return cs.Hi <= 0 || (p >= cs.Lo && p < cs.Hi) }
+	nm := 0
+	flips := func() {
+		// every single-bit flip of every data byte and every digest byte
+		if len(cs.Seq) >= 3 && cs.Cont == "v2noidx" {
+			return // three-block archives: the flips are taken in the three other containers
 		}
-		return
-	}
-	// sanity: the unmutated archive reads cleanly (0 deviations); the blocks are judged AFTER the
-	// whole scan, so a reader that hands out views into a buffer it later reuses is caught
-	for _, rk := range readers {
-		r := drv.Read(rk, x.Dir, file, drv.Opts{})
-		x.Eval(1)
-		if r.OpenErr != nil || r.Err != nil || len(r.Blocks) != len(pl.Sections) {
-			x.Fail("c02:valid-rejected:"+rk, "reader %s fails on the unmutated archive: %v %v", rk, r.OpenErr, r.Err)
-			continue
-		}
-		for i, b := range r.Blocks {
-			if ok, err := refcar.VerifyBlock(b.Cid, b.Data); err != nil || !ok {
-				x.Fail("c02:block-corrupt-after-scan:"+rk, "reader %s: block #%d of a VALID archive no longer hashes to its CID once the scan has finished (retained data overwritten?)", rk, i)
-				break
+		for i, s := range pl.Sections {
+			end := base + int(s.Offset+s.Len)
+			for p := digestStart(i); p < end; p++ {
+				if !inRange(p) {
+					continue
+				}
+				for bit := 0; bit < 8; bit++ {
+					runFlip(p, bit)
+					nm++
+				}
 			}
 		}
 	}
-	if len(cs.Seq) > 100 {
-		x.State(fmt.Sprintf("%s|large", cs.Cont))
-		x.Nontrivial(fmt.Sprintf("large|%s", cs.Cont))
-		return // the large archive is only read unmutated
-	}
-	nm := 0
-	// every single-bit flip of every data byte and every digest byte
-	for _, s := range pl.Sections {
-		vn := refcar.UvarintSize(uint64(len(s.Cid) + len(s.Data)))
-		digestStart := base + int(s.Offset) + vn + (len(s.Cid) - len(s.Info.Digest))
-		end := base + int(s.Offset+s.Len)
-		for p := digestStart; p < end; p++ {
+	flipxs := func() {
+		// every single-bit flip of every other byte up to the end of the payload
+		for p := 0; p < payloadEnd; p++ {
+			if isHashed(p) || !inRange(p) {
+				continue
+			}
+			if sectionOf(p) < 0 && !hdrFlips {
+				continue // container / CARv1 header bytes (the same in every archive but for the sizes): taken on 4 archives per container and root list
+			}
 			for bit := 0; bit < 8; bit++ {
-				runFlip(p, bit)
+				runFlipX(p, bit, false)
+				nm++
+				if sectionOf(p) >= 0 {
+					runFlipX(p, bit, true)
+					nm++
+				}
+			}
+		}
+	}
+	cuts := func(kind string) {
+		// every payload end inside headers or sections that is not a section boundary
+		lo := 0
+		if kind == "datasize" {
+			if cs.Cont == "v1" {
+				return
+			}
+			lo = base
+		}
+		for L := lo; L < payloadEnd; L++ {
+			if boundary[L] || !inRange(L) {
+				continue
+			}
+			if cs.Cont == "v1" && len(cs.Seq) == 3 && cs.Roots == "" && L < int(pl.HeaderLen) {
+				continue // the very same byte string as for every shorter sequence (same header)
+			}
+			runCut(kind, L, false)
+			nm++
+			if len(cs.Seq) >= 3 && !nearLenVarint(L) {
+				continue // three-block archives: ZeroLengthSectionAsEOF only where a length is being read
+			}
+			runCut(kind, L, true)
+			nm++
+		}
+	}
+
+	switch cs.Part {
+	case "":
+		sanity()
+		flips()
+		flipxs()
+		cuts("trunc")
+		cuts("datasize")
+	case "sanity":
+		sanity()
+	case "flip":
+		flips()
+	case "flipx":
+		flipxs()
+	case "trunc", "datasize":
+		cuts(cs.Part)
+	case "large", "batch":
+		// archives larger than any reader-internal buffer (bufio 4096) / batch (1000 blocks):
+		// read unmutated with the blocks retained, then a FIXED mutant set around the buffer
+		// boundaries, the batch boundary and the two ends
+		sanity()
+		var pts []int // file offsets
+		secPts := func(i int) {
+			s := pl.Sections[i]
+			pts = append(pts, base+int(s.Offset)+refcar.UvarintSize(uint64(len(s.Cid)+len(s.Data))), digestStart(i), base+int(s.Offset+s.Len)-1)
+			if cs.Part == "large" {
+				pts = append(pts, base+int(s.Offset), base+int(s.Offset+s.Len)-1-len(s.Data)/2)
+			}
+		}
+		secPts(0)
+		secPts(len(pl.Sections) - 1)
+		if cs.Part == "large" {
+			for k := 4096; k < len(payload); k += 4096 {
+				pts = append(pts, base+k-1, base+k, base+k+1)
+			}
+		} else {
+			for _, i := range []int{1000, 1001, 1050} {
+				if i < len(pl.Sections) {
+					secPts(i)
+				}
+			}
+		}
+		for _, p := range pts {
+			if p < base+int(pl.HeaderLen) || p >= payloadEnd {
+				continue
+			}
+			for _, bit := range []int{0, 7} {
+				if isHashed(p) {
+					runFlip(p, bit)
+				} else {
+					runFlipX(p, bit, false)
+				}
 				nm++
 			}
+			if !boundary[p] {
+				runCut("trunc", p, false)
+				nm++
+				if cs.Cont != "v1" {
+					runCut("datasize", p, false)
+					nm++
+				}
+			}
 		}
-	}
-	// every proper prefix inside headers or sections that is not a section boundary
-	for L := 0; L < payloadEnd; L++ {
-		if boundary[L] {
-			continue
+		x.Count("large_archive_mutant_offsets", len(pts))
+		if cs.Part == "batch" {
+			// non-vacuity of the batch loaders: a flip in block 1050 leaves the first batch delivered
+			p := digestStart(1050)
+			m := append([]byte{}, file...)
+			m[p] ^= 1
+			for _, rk := range []string{"root-load-batch", "int-load-batch"} {
+				r := drv.ReadC02(rk, x.Dir, m, drv.Opts{}, 0)
+				x.Outcome(fmt.Sprintf("batch|%s|delivered-before-error=%d", rk, len(r.Blocks)))
+			}
 		}
-		runTrunc(L)
-		nm++
+	case "unknownhash":
+		// a block whose CID names a hash function that is not available cannot be verified:
+		// no verifying reader may hand it out, Inspect(true) must fail
+		mut := C02Mut{Kind: "unknownhash"}
+		for n, code := range c02UnknownHash {
+			if _, err := multihash.GetHasher(code); err == nil {
+				x.NotExhaustive(fmt.Sprintf("hash code 0x%x of alphabet block %s is registered in this build", code, n))
+				return
+			}
+		}
+		for _, rk := range verifying {
+			r := drv.ReadC02(rk, x.Dir, file, drv.Opts{}, 0)
+			x.Eval(1)
+			x.Transition(len(r.Blocks) + 1)
+			for i, b := range r.Blocks {
+				ok, err := c02Verify(b.Cid, b.Data)
+				if err != nil || !ok {
+					x.Fail("c02:unverifiable-block-returned:"+rk, "reader %s returned block #%d although its bytes cannot be checked against its CID (%v)", rk, i, err)
+					break
+				}
+				if i < unknown && (!bytes.Equal(b.Cid, pl.Sections[i].Cid) || !bytes.Equal(b.Data, pl.Sections[i].Data)) {
+					x.Fail("c02:wrong-block-before-damage:"+rk+":"+mut.Kind, "reader %s block #%d differs from the original", rk, i)
+					break
+				}
+			}
+			if r.OpenErr == nil && r.Err == nil {
+				x.Outcome("unknownhash|" + rk + "|clean")
+			} else {
+				x.Outcome("unknownhash|error")
+			}
+		}
+		for _, ik := range drv.InspectSources {
+			_, oerr, err := drv.InspectFull(ik, file, drv.Opts{})
+			x.Eval(1)
+			if oerr == nil && err == nil {
+				x.Fail("c02:unverifiable-accepted:"+ik, "Inspect(true) [%s] accepts an archive holding a block whose hash function is unavailable", ik)
+			}
+		}
+		x.State(fmt.Sprintf("%s|%x|unknownhash", cs.Cont, payload))
+		x.Nontrivial(fmt.Sprintf("%v|%s|unknownhash", cs.Seq, cs.Cont))
+		return
+	default:
+		panic("unknown part " + cs.Part)
 	}
 	x.Count("mutants", nm)
-	x.State(fmt.Sprintf("%s|%x", cs.Cont, payload))
+	if len(cs.Seq) > 100 {
+		x.State(fmt.Sprintf("%s|many%d", cs.Cont, len(cs.Seq)))
+		x.Nontrivial(fmt.Sprintf("many%d|%s", len(cs.Seq), cs.Cont))
+		return
+	}
+	x.State(fmt.Sprintf("%s|%x|%s|%d", cs.Cont, payload, cs.Part, cs.Lo))
 	x.Outcome(fmt.Sprintf("sections=%d", len(pl.Sections)))
 	if len(pl.Sections) >= 1 {
-		x.Nontrivial(fmt.Sprintf("%v|%s", cs.Seq, cs.Cont))
+		x.Nontrivial(fmt.Sprintf("%v|%s|%s", cs.Seq, cs.Cont, cs.Roots))
 	}
 }
 
@@ -219,6 +652,30 @@ func truncWhere(L, base, hdr int) string {
 	return "section"
 }
 
+var c02Conts = []string{"v1", "v2", "v2pad", "v2noidx"}
+
+// c02EmitSplit emits the archive as several cases: sanity, and each mutant family cut into
+// ranges of file offsets, so that one large archive spreads over the workers.
+func c02EmitSplit(sq []string, cont string, flipChunk, cutChunk int, emit func(any)) {
+	_, rootRaws, _ := kit.Roots("a")
+	var rb []refcar.Block
+	for _, n := range sq {
+		rb = append(rb, c02Block(n))
+	}
+	size := len(refcar.EncodeV1(rootRaws, false, rb)) + 54
+	emit(C02Case{Seq: sq, Cont: cont, Part: "sanity"})
+	emit(C02Case{Seq: sq, Cont: cont, Part: "flipx"})
+	for lo := 0; lo < size; lo += flipChunk {
+		emit(C02Case{Seq: sq, Cont: cont, Part: "flip", Lo: lo, Hi: lo + flipChunk})
+	}
+	for lo := 0; lo < size; lo += cutChunk {
+		emit(C02Case{Seq: sq, Cont: cont, Part: "trunc", Lo: lo, Hi: lo + cutChunk})
+		if cont != "v1" {
+			emit(C02Case{Seq: sq, Cont: cont, Part: "datasize", Lo: lo, Hi: lo + cutChunk})
+		}
+	}
+}
+
 func genC02(tier string, emit func(any)) {
 	names := []string{"a", "e", "a0", "i", "s", "t", "k"}
 	maxLen := 2
@@ -229,17 +686,58 @@ func genC02(tier string, emit func(any)) {
 	var seqs [][]string
 	kit.Seqs(names, maxLen, func(s []string) { seqs = append(seqs, s) })
 	seqs = append(seqs, []string{"L127"}, []string{"L128", "a"})
-	if tier == "thorough" {
-		seqs = append(seqs, []string{"L16383", "a"}, []string{"a", "L16384"})
-	}
 	for _, sq := range seqs {
-		for _, cont := range []string{"v1", "v2", "v2pad"} {
+		for _, cont := range c02Conts {
 			emit(C02Case{Seq: sq, Cont: cont})
 		}
 	}
-	// an archive larger than any reader-internal buffer, read unmutated with the blocks retained
-	for _, cont := range []string{"v1", "v2"} {
-		emit(C02Case{Seq: kit.ManyNames(300), Cont: cont})
+	// a CARv1 header with a two-byte length varint (three roots)
+	for _, sq := range [][]string{{}, {"a"}, {"s", "a"}} {
+		for _, cont := range c02Conts {
+			emit(C02Case{Seq: sq, Cont: cont, Roots: "abs"})
+		}
+	}
+	// a block whose hash function is unavailable
+	for _, u := range []string{"u", "u10"} {
+		for _, sq := range [][]string{{u}, {"a", u}, {u, "a"}, {"a", u, "s"}} {
+			for _, cont := range []string{"v1", "v2", "v2noidx"} {
+				emit(C02Case{Seq: sq, Cont: cont, Part: "unknownhash"})
+			}
+		}
+	}
+	// archives larger than any reader-internal buffer / batch: unmutated with the blocks
+	// retained, plus a fixed mutant set
+	for _, cont := range []string{"v1", "v2", "v2noidx"} {
+		emit(C02Case{Seq: kit.ManyNames(300), Cont: cont, Part: "large"})
+	}
+	emit(C02Case{Seq: kit.ManyNames(1100), Cont: "v1", Part: "batch"})
+	// sections larger than the root reader's 4096-byte buffer; in the quick tier only the flips of
+	// the data bytes around the buffer boundary and at both ends of the section are taken
+	if tier != "thorough" {
+		for _, cont := range []string{"v1", "v2noidx"} {
+			sq := []string{"L5000"}
+			emit(C02Case{Seq: sq, Cont: cont, Part: "sanity"})
+			emit(C02Case{Seq: sq, Cont: cont, Part: "flipx"})
+			hdr := 59
+			if cont != "v1" {
+				hdr += 51
+			}
+			for _, w := range [][2]int{{hdr, hdr + 48}, {4096 - 6, 4096 + 6}, {hdr + 4096 - 6, hdr + 4096 + 6}, {hdr + 2 + 5000 - 8, hdr + 2 + 5000}} {
+				emit(C02Case{Seq: sq, Cont: cont, Part: "flip", Lo: w[0], Hi: w[1]})
+			}
+			for lo := 0; lo < 5200; lo += 650 {
+				emit(C02Case{Seq: sq, Cont: cont, Part: "trunc", Lo: lo, Hi: lo + 650})
+				if cont != "v1" {
+					emit(C02Case{Seq: sq, Cont: cont, Part: "datasize", Lo: lo, Hi: lo + 650})
+				}
+			}
+		}
+		return
+	}
+	for _, sq := range [][]string{{"L5000"}, {"L16383", "a"}, {"a", "L16384"}} {
+		for _, cont := range c02Conts {
+			c02EmitSplit(sq, cont, 256, 1024, emit)
+		}
 	}
 }
 
@@ -249,14 +747,33 @@ func init() {
 		Gen:    genC02,
 		Run:    runC02,
 		Decode: kit.DecodeAs[C02Case],
-		Rule: "for every archive up to the bound (CARv1, CARv2, padded CARv2): EVERY single-bit flip of every block-data and CID-digest byte and EVERY proper prefix not ending on a section boundary, fed to every verifying scanning reader " +
-			"(BlockReader.Next over bytes/stream, SkipNext for truncations, root CarReader/LoadCar (both store kinds), internal carv1 reader/loader, Inspect(true)); case = one archive, executions = reader runs over mutants; non-trivial = archive with >=1 section",
+		Rule: "for every archive up to the bound in 4 containers (CARv1, CARv2 with index, padded CARv2 with index, CARv2 without index): " +
+			"(1) the unmutated archive through every reader: exactly the original blocks (compared after the scan), nothing handed out by 2 further Next calls after the clean end, Inspect(true) accepts, two root readers with overlapping lifetimes; " +
+			"(2) EVERY single-bit flip of every block-data and CID-digest byte: reported by every verifying reader, nothing from the damaged section on returned; " +
+			"(3) EVERY single-bit flip of every other byte of the block sections (section length, CID version/codec/hash code/digest length; with and without ZeroLengthSectionAsEOF), and of every byte before them (pragma, CARv2 header, padding, CARv1 header) on the empty archive and 3 one-block archives per container and root list: every block returned hashes to its CID and the blocks before the damage are the original ones; " +
+			"(4) EVERY proper prefix not ending on a section boundary, and for CARv2 EVERY header DataSize ending the payload at such an offset with the file complete, with and without ZeroLengthSectionAsEOF: reported as an error other than io.EOF by every scanning reader, only complete sections returned; " +
+			"(5) archives holding a block whose hash function is not registered: never handed out, Inspect(true) fails; (6) 300-block and 1100-block archives with a fixed mutant set at the 4096-byte buffer boundaries, the 1000-block batch boundary and both ends. " +
+			"readers = BlockReader.Next and SkipNext over 6 source kinds (bytes.Reader, Read-only stream, *os.File, Reader+ByteReader, data-with-EOF reader, one-byte reader), root CarReader (3 source kinds) / LoadCar (plain and batch store), internal carv1 reader (4 source kinds) / loader (plain and batch store), Inspect(true) over 3 io.ReaderAt kinds; " +
+			"REDUCED MATRIX: the 7 (CARv1) / 2 (CARv2) original reader kinds and Inspect over bytes.Reader run on every mutant of every archive; the other source kinds run on every mutant of the archives with <=1 block and of the 300-block archive, and on the cuts inside the block sections of the two-block archives; CARv1 header cuts of three-block archives are skipped (byte-identical to those of shorter sequences); three-block archives: ZeroLengthSectionAsEOF=on only for cuts inside or up to one byte after a section length varint, digest/data flips in 3 of the 4 containers (not the index-less CARv2); " +
+			"case = one archive (or one offset range of one mutant family of a large archive), executions = reader runs; non-trivial = archive with >=1 section",
 		Bound: func(tier string) map[string]any {
+			b := map[string]any{"containers": 4, "deviations": 1, "root_lists": "1 root everywhere; 3 roots (header > 127 bytes) on 3 sequences", "flips": "all bits of all digest, data, section-length and CID-prefix bytes; all bits of the header bytes on 4 archives per container and root list", "truncations": "all offsets x ZeroLengthSectionAsEOF{off,on}", "datasize": "all offsets x ZeroLengthSectionAsEOF{off,on}",
+				"unknown_hash_archives": 24, "many_block_archives": "300 blocks x 3 containers, 1100 blocks x CARv1 (fixed mutant sets)"}
 			if tier == "thorough" {
-				return map[string]any{"seq_len": 3, "alphabet": 11, "deviations": 1, "flips": "all bits of data+digest bytes", "truncations": "all offsets"}
+				b["seq_len"], b["alphabet"] = 3, 11
+				b["large_sections"] = "L5000, L16383+a, a+L16384: all flips, all truncations, 4 containers"
+			} else {
+				b["seq_len"], b["alphabet"] = 2, 7
+				b["large_sections"] = "L5000 in CARv1 and index-less CARv2: all truncations; flips of the data bytes in 4 windows (section start, buffer offset 4096 file- and section-relative, section end) - reduced matrix"
 			}
-			return map[string]any{"seq_len": 2, "alphabet": 7, "deviations": 1, "flips": "all bits of data+digest bytes", "truncations": "all offsets"}
+			return b
 		},
-		Assumptions: []string{"refcar hashing (crypto/sha256, sha512, x/crypto/blake2b) is correct", "non-verifying paths (Inspect(false), index generation, AllKeysChan, TrustedCAR) are outside the property", "a CARv2 truncated exactly on a payload section boundary is exempt, as the property states"},
+		Assumptions: []string{"refcar hashing (crypto/sha256, sha512, x/crypto/blake2b) is correct",
+			"non-verifying paths (Inspect(false), index generation, AllKeysChan, TrustedCAR) are outside the property; SkipNext returns no block bytes and is only judged as a scanning reader (truncations, CIDs)",
+			"a CARv2 truncated exactly on a payload section boundary is exempt, as the property states",
+			"a CARv2 header whose DataSize ends the payload inside a section is treated as a truncation of the archive's block sections (the payload the readers are given is a proper prefix)",
+			"flips outside digest/data bytes need not be reported (a flipped codec gives a different but valid block); a digest truncated to 0 bytes matches any data",
+			"sources honour the io.Reader / io.ReaderAt contracts (data together with io.EOF and short reads are allowed by them)",
+			"what a reader returns when called again after an ERROR is not constrained; after a clean end it must not produce blocks"},
 	})
 }
